@@ -134,6 +134,18 @@ def run_case(case, rng):
                         if nag is not case.FAIL:
                             nxt.append((hist + ((a, o),), nag))
             frontier = nxt
+        # ---- run_on starts exactly at the given (state, node distribution) ---------------------------------------
+        import random as _random
+        for s0 in S:
+            e = np.zeros(nn)
+            e[rng.randrange(nn)] = 1.0
+            traj = case.call("run_on", ctrl.run_on, pomdp, initial_state=s0, initial_agentstate=e, max_steps=2,
+                             rng=_random.Random(rng.randrange(2 ** 31)), facts=facts)
+            case.count("run_on_starts_checked")
+            if traj is not case.FAIL:
+                case.check(traj[0].state == s0 and np.array_equal(np.asarray(traj[0].agentstate), e),
+                           "controller:run_on-does-not-start-at-given-state-or-node",
+                           lambda: f"given ({s0!r}, {e.tolist()}) got ({traj[0].state!r}, {np.asarray(traj[0].agentstate).tolist()})", **facts)
     else:
         nn = rng.randint(1, 3)
         seed = rng.choice([0, 1, rng.randrange(2 ** 31)])
@@ -160,8 +172,9 @@ def run_case(case, rng):
                               f"(node,state)={bad[0].tolist()}: {t0[tuple(bad[0])]!r} -> {t1[tuple(bad[0])]!r}", **facts)
                     break
         else:
-            iters = rng.randint(1, 15)
-            learner = ga_mod.FSCGradientAscent(controller_state_count=nn, iterations=iters, seed=seed)
+            iters = rng.randint(1, 25)
+            lr = rng.choice([0.1, 0.1, 0.5, 1.0, 2.0])       # large steps make the trajectory non-monotone
+            learner = ga_mod.FSCGradientAscent(controller_state_count=nn, iterations=iters, seed=seed, learning_rate=lr)
             res = case.call("FSCGradientAscent.train_on", learner.train_on, pomdp, facts=facts)
             case.count("ga_runs")
             case.sig("ga", len(S), len(A), len(OL), nn, gamma, live_abs, iters, seed % 1000)
